@@ -9,6 +9,7 @@ package main
 import (
 	"fmt"
 	"reflect"
+	"strings"
 	"unsafe"
 
 	"verif/harness/vh"
@@ -123,9 +124,49 @@ func (c *cx) matS(i int) []int64 {
 	if v.T != "L" {
 		return nil
 	}
+	if v.V > 0 && i > 0 && c.a[0].T == "L" {
+		base, off := c.S(0), v.V-1
+		if off+len(v.L) <= len(base) && len(v.L) > 0 {
+			w := base[off : off+len(v.L)]
+			ok := true
+			for k := range w {
+				ok = ok && w[k] == v.L[k]
+			}
+			if ok {
+				watch(c, i, "(a window of argument #0)", false, w, sameZ, showZ)
+				return w
+			}
+		}
+	}
 	s := spare(v.L, v.X, sentinel)
 	watch(c, i, "", true, s, sameZ, showZ)
 	return s
+}
+
+// viewShape: the call with argument #1 handed over as a window of argument #0's array, when its value occurs there
+func viewShape(d *fnDef, a []Val, r *vh.RNG) ([]Val, bool) {
+	if ps := strings.Split(d.shape, ","); len(ps) < 2 || ps[1] != "t" { // the second argument is a slice of elements
+		return nil, false
+	}
+	if d.inplace || d.oracle || len(a) < 2 || a[0].T != "L" || a[1].T != "L" || len(a[1].L) == 0 || len(a[1].L) > len(a[0].L) {
+		return nil, false
+	}
+	var offs []int
+	for off := 0; off+len(a[1].L) <= len(a[0].L); off++ {
+		ok := true
+		for k, x := range a[1].L {
+			ok = ok && a[0].L[off+k] == x
+		}
+		if ok {
+			offs = append(offs, off)
+		}
+	}
+	if len(offs) == 0 {
+		return nil, false
+	}
+	b := append([]Val{}, a...)
+	b[1].V, b[1].X = offs[r.Intn(len(offs))]+1, 0
+	return b, true
 }
 
 // matInts: an index list (variadic ...int)
@@ -288,7 +329,7 @@ var spareChoices = []int{1, 1, 2, 3, 4, 6, 9, 17}
 
 func shaped(a []Val) bool {
 	for _, v := range a {
-		if v.X != 0 {
+		if v.X != 0 || v.V != 0 {
 			return true
 		}
 		for _, x := range v.XS {
